@@ -187,7 +187,16 @@ static void run_sizes(void)
 {
     static cfg_t cfgs[1200];
     int nc = all_cfgs(cfgs, 1200, MO.thorough, 1);
+    /* an instance that stays alive while all the others come and go: its answers never change */
+    cfg_t anchor_c = { EC_BACKEND_LIBERASURECODE_RS_VAND, 4, 2, 2, 0, CHKSUM_CRC32 }; int anchor = -1;
+    if (mon_case_all("anchor|create")) { anchor = lec_create(&anchor_c); if (anchor <= 0) mon_viol("C08", "create-failed", "anchor rc=%d", anchor); mon_end(); }
     for (int ci = 0; ci < nc; ci++) {
+        if (anchor > 0 && ci > 0 && mon_case("anchor|after-%d-other-instances", ci)) {
+            cfg_use(&anchor_c);
+            for (uint64_t len = 0; len <= 40; len += (len < 18 ? 1 : 11)) check_sizes(&anchor_c, "anchor", anchor, len, len % 3 == 0);
+            mon_count("anchor_instance_rechecks", 1);
+            mon_end();
+        }
         cfg_t c = cfgs[ci]; c.ct = (ci & 1) ? CHKSUM_NONE : CHKSUM_CRC32;
         char ck[96]; cfg_key(&c, ck, sizeof ck);
         int desc = -1;
@@ -250,6 +259,7 @@ static void run_sizes(void)
             mon_end();
         }
     }
+    if (anchor > 0 && mon_case_all("anchor|destroy")) { if (liberasurecode_instance_destroy(anchor) != 0) mon_viol("C08", "destroy-failed", "anchor instance could not be destroyed at the end"); mon_end(); }
 }
 
 /* ================================================================ C09 */
@@ -441,6 +451,37 @@ static void run_header(void)
                         snprintf(what, sizeof what, "writer version %08x, %s seal", gate[q], stale ? "stale" : "good"); eval_mutant(&mc, h, what);
                     }
                     mon_count("structured_forgery_blocks", 1);
+                    mon_end();
+                }
+                /* (f) a header that is valid by the equation but that decode/reconstruct refuse late (logical size >= 2^31, re-sealed),
+                 * met after an earlier data fragment had to be replaced (missing) or copied (misaligned): the refused call leaves
+                 * every fragment the caller handed in, and the rest of the stripe, byte for byte as encode wrote it and still valid */
+                if (fi == 0 && c.k >= 2 && mon_case("%s|late-refusal-leaves-fragments", x.ck)) {
+                    stripe_t *s = &x.st[mc.si]; int n2 = s->n;
+                    uint64_t dg[64]; for (int i = 0; i < n2; i++) dg[i] = mon_hash(s->frag[i], s->flen, 77);
+                    uint8_t *fg = NULL; if (posix_memalign((void **)&fg, 16, s->flen)) fg = NULL;
+                    uint8_t *mis = malloc(s->flen + 32);
+                    for (int var = 0; var < 6 && fg && mis; var++) {
+                        int j = var % 2 ? 1 : (c.k > 2 ? 2 : 1);         /* the forged data fragment */
+                        memcpy(fg, s->frag[j], s->flen); ref_put64(fg + REF_OFF_ORIG, 0x80000000ull + (uint64_t)var * 0x7fffffffull); ref_hdr_reseal(fg, lm >= 3);
+                        char *list[64]; int cnt = 0;
+                        for (int i = 0; i < n2; i++) {
+                            if (i == 0 && var < 4) { if (var < 2) continue; memcpy(mis + 1 + var, s->frag[0], s->flen); list[cnt++] = (char *)mis + 1 + var; continue; }
+                            if (i == 1 && j == 2 && var >= 2) continue;
+                            list[cnt++] = (char *)(i == j ? fg : s->frag[i]);
+                        }
+                        int rc;
+                        if (var != 3 && var != 5) { char *out = NULL; uint64_t ol = 0; rc = liberasurecode_decode(x.desc, list, cnt, s->flen, var == 4, &out, &ol); if (rc == 0) liberasurecode_decode_cleanup(x.desc, out); }
+                        else { uint8_t *of = malloc(s->flen); rc = liberasurecode_reconstruct_fragment(x.desc, list, cnt, s->flen, var == 3 ? n2 - 1 : 0, (char *)of); free(of); }
+                        mon_count("evaluations", 1); mon_count("late_refusals", 1);
+                        /* (reconstruction does not need the logical size: its result is not judged here) */
+                        if (rc == 0 && var != 3 && var != 5) mon_viol("C09", "oversized-logical-size-accepted", "variant %d: decode returned 0 although the first data fragment it reads claims a logical size >= 2^31", var);
+                        for (int i = 0; i < n2; i++) {
+                            fragment_metadata_t md; int mr = liberasurecode_get_fragment_metadata(s->frag[i], &md);
+                            if (mon_hash(s->frag[i], s->flen, 77) != dg[i] || mr != 0) { mon_viol("C09", "refused-call-damaged-fragment", "variant %d (rc %d): fragment %d of the stripe is no longer what encode wrote (query rc %d)", var, rc, i, mr); break; }
+                        }
+                    }
+                    free(fg); free(mis);
                     mon_end();
                 }
                 /* (d) padding-only edits */
@@ -696,7 +737,7 @@ static void run_endian(void)
                             memcpy(tw, nat, s->flen);
                             ref_hdr_twin(nat, tw, variant_legacy);
                             if (v == 4) { /* keep the twin's seal as stale as the native one */ tw[REF_OFF_MCRC] ^= 0x5a; }
-                            fragment_metadata_t ma, mb; memset(&ma, 0, sizeof ma); memset(&mb, 0, sizeof mb);
+                            fragment_metadata_t ma, mb; memset(&ma, 0xA5, sizeof ma); memset(&mb, 0x5A, sizeof mb);   /* stale caller structs: every member must be assigned by the query */
                             int ra = liberasurecode_get_fragment_metadata((char *)nat, &ma);
                             int rb = liberasurecode_get_fragment_metadata((char *)tw, &mb);
                             mon_count("evaluations", 1); mon_count("twin_pairs", 1);
@@ -732,7 +773,7 @@ static void run_endian(void)
                                 memcpy(tw, nat, s->flen);
                                 ref_hdr_twin(nat, tw, variant_legacy);
                                 if (stale) { /* the twin carries the byte-swapped stale value: rebuild it from the native stored word */ ref_put32(tw + REF_OFF_MCRC, __builtin_bswap32(ref_get32(nat + REF_OFF_MCRC))); }
-                                fragment_metadata_t ma, mb; memset(&ma, 0, sizeof ma); memset(&mb, 0, sizeof mb);
+                                fragment_metadata_t ma, mb; memset(&ma, 0xA5, sizeof ma); memset(&mb, 0x5A, sizeof mb);   /* stale caller structs: every member must be assigned by the query */
                                 int ra = liberasurecode_get_fragment_metadata((char *)nat, &ma);
                                 int rb = liberasurecode_get_fragment_metadata((char *)tw, &mb);
                                 int ha = is_invalid_fragment_header((fragment_header_t *)nat), hb = is_invalid_fragment_header((fragment_header_t *)tw);
